@@ -100,21 +100,26 @@ def killOn (s : State) (c : Nat) (reason : String) : State :=
 def netClose (s : State) (c : Nat) (reason : String) : State :=
   if c < s.nClients ∧ (s.client c).netOpen then killOn (netDown s c) c reason else s
 
+def connLost : String := reasonStreamConnectionFailed
+
 /-- `OnDestroyStream` of the pool's client after stream `i` left the table -/
 def onStreamDestroy (s : State) (c : Nat) : State :=
   let s1 := { s with reqCur := resDecrease s.maxReq s.reqCur }
   let cl := s1.client c
-  if muxCloseOnDestroy cl.state cl.goaway (s1.activeOn c) then netDown s1 c else s1
+  -- (closing = the close event + the reset of whatever is still in the connection's table: nothing, here)
+  if muxCloseOnDestroy cl.state cl.goaway (s1.activeOn c) then netClose s1 c connLost else s1
+
+/-- what a stream looks like after it ended: response delivered (`reset = none`) or reset with a reason -/
+def ended (st : Stream) (reset : Option String) : Stream :=
+  { st with state := destroyedState, destroys := st.destroys + 1,
+            resets := match reset with | some r => st.resets ++ [r] | none => st.resets,
+            recv := match reset with | some _ => st.recv | none => st.recv + 1 }
 
 /-- a single stream ends: response (`reset = none`) or local reset -/
 def endStream (s : State) (i : Nat) (reset : Option String) : State :=
   let st := s.stream i
   if destroyProceeds st.state then
-    let s1 := { s with stream := fun k => if k = i then
-      { st with state := destroyedState, destroys := st.destroys + 1,
-                resets := match reset with | some r => st.resets ++ [r] | none => st.resets,
-                recv := match reset with | some _ => st.recv | none => st.recv + 1 } else s.stream k }
-    onStreamDestroy s1 st.conn
+    onStreamDestroy { s with stream := fun k => if k = i then ended st reset else s.stream k } st.conn
   else s
 
 inductive Op
@@ -150,15 +155,14 @@ def connect (s : State) (i : Nat) (dial : Dial) : State :=
       nClients := s.nClients + 1,
       client := fun k => if k = s.nClients then { state := muxFreshState, slot := i } else s.client k }
 
-def checkAndInit (s : State) (slot : Option Nat) (dial : Dial) : State × Res :=
-  -- which slot
-  let (s0, i) := match slot with
-    | some k => (s, slotIdx s k)
-    | none => if s.nSlots > 1 then ({ s with rr := s.rr + 1 }, (s.rr + 1) % s.nSlots) else (s, 0)
-  -- a placeholder in state Init is stored into an empty slot
-  let s1 := match s0.slot i with
-    | .empty => s0.setSlot i (.fake muxInit)
-    | _ => s0
+/-- a placeholder client in state Init is stored into an empty slot (`LoadOrStore`) -/
+def withPlaceholder (s : State) (i : Nat) : State :=
+  match s.slot i with
+  | .empty => s.setSlot i (.fake muxInit)
+  | _ => s
+
+/-- `CheckAndInit` on the client found in slot `i` -/
+def checkClient (s1 : State) (i : Nat) (dial : Dial) : State × Res :=
   match s1.slotState i with
   | none => (s1, .ready false)
   | some st =>
@@ -166,12 +170,24 @@ def checkAndInit (s : State) (slot : Option Nat) (dial : Dial) : State × Res :=
     else if muxReinitFrom.contains st then (connect (s1.setSlotState i muxReinitTo) i dial, .ready false)
     else (s1, .ready false)
 
+/-- `CheckAndInit` once the slot is chosen (an index outside `activeClients` would panic in Go: never generated) -/
+def checkSlot (s0 : State) (i : Nat) (dial : Dial) : State × Res :=
+  if i < s0.nSlots then checkClient (withPlaceholder s0 i) i dial else (s0, .ready false)
+
+def checkAndInit (s : State) (slot : Option Nat) (dial : Dial) : State × Res :=
+  match slot with
+  | some k => checkSlot s (slotIdx s k) dial
+  | none =>
+    -- no slot in the downstream context: the pool's counter chooses (only with more than one slot)
+    if s.nSlots > 1 then checkSlot { s with rr := s.rr + 1 } ((s.rr + 1) % s.nSlots) dial else checkSlot s 0 dial
+
 def lease (s : State) (c : Nat) : State :=
   { s with reqCur := resIncrease s.maxReq s.reqCur, nStreams := s.nStreams + 1,
            stream := fun k => if k = s.nStreams then { conn := c } else s.stream k }
 
 def newStream (s : State) (k : Nat) : State × Res :=
   let i := slotIdx s k
+  if i ≥ s.nSlots then (s, .connFail) else
   match s.slot i with
   | .empty => (s, .connFail)
   | .fake _ => (s, .connFail)          -- a placeholder is never Connected
@@ -182,8 +198,6 @@ def newStream (s : State) (k : Nat) : State × Res :=
 
 def slotClients (s : State) : List Nat :=
   (List.range s.nSlots).filterMap (fun i => match s.slot i with | .real c => some c | _ => none)
-
-def connLost : String := reasonStreamConnectionFailed
 
 def step (s : State) : Op → State × Res
   | .checkAndInit slot dial => checkAndInit s slot dial
